@@ -561,6 +561,17 @@ def rule_scatter(ctx):
       continue
     want = sym.mk("fdiv", N + step - 1 - i_, step)
     key = "N = %s" % repr(N)[:50]
+    if N != n:
+      # a truncation only shortens: the path knows N <= n (bits beyond the data would be phantom zeros of every sub-sequence)
+      shorter = False
+      for fc in e.facts:
+        if fc[0] == "cmp" and isinstance(fc[2], Poly) and isinstance(fc[3], Poly):
+          d_ = fc[2] - fc[3]
+          if (fc[1] in ("Lt", "LtE") and (d_ - (N - n)).is_zero()) or (fc[1] in ("Gt", "GtE") and (d_ - (n - N)).is_zero()):
+            shorter = True
+      if not shorter:
+        seen[key] = "the input is cut to %s bits on a path that does not know this is at most n: beyond the data every sub-sequence is padded with phantom zeros" % repr(N)[:40]
+        continue
     if size != want:
       seen[key] = "sub-sequence %s has ceil((N - i) / step) bits, LinearComplexity is told %s" % (repr(i_)[:20], repr(size)[:90])
     else:
